@@ -696,6 +696,15 @@ fn pause_op(sim: &Sim, on: bool) -> Op {
     hub_update_params(&owner, None, None, None, None, Some(on), None)
 }
 
+/// the owner's un-pause, re-stating every parameter with the value already in force (what a
+/// script that always sends the full parameter set does): must change nothing but the flag
+fn unpause_restating_op(sim: &Sim) -> Op {
+    match sim.obs.hub.as_ref() {
+        Some(h) => hub_update_params(&h.config.owner, Some(h.params.epoch_period), Some(h.params.unbonding_period), Some(h.params.peg_recovery_fee), Some(h.params.er_threshold), Some(false), Some(h.params.reward_denom.clone())),
+        None => pause_op(sim, false),
+    }
+}
+
 fn c11_matrix(sim: &mut Sim, rng: &mut Rng, idx: usize, out: &mut Vec<Violation>) {
     let was_paused = sim.obs.hub.as_ref().and_then(|h| h.params.paused).unwrap_or(false);
     let mut c = child_of(sim);
@@ -828,8 +837,9 @@ fn c11_matrix(sim: &mut Sim, rng: &mut Rng, idx: usize, out: &mut Vec<Violation>
             viol(out, "C11", "migration_drains_legacy_entries", idx, "hub.migrate:not_drained", "legacy entries remain after migration".into());
         }
     }
-    // the owner's unpause restores operation
-    let o = c.apply(&tx_step(pause_op(sim, false))).unwrap();
+    // the owner's unpause restores operation (half of the time re-stating all current parameters)
+    let unpause = if rng.chance(1, 2) { unpause_restating_op(&c) } else { pause_op(sim, false) };
+    let o = c.apply(&tx_step(unpause)).unwrap();
     if !o.ok {
         viol(out, "C11", "owner_can_unpause", idx, "hub.update_params:unpause_failed", format!("owner could not unpause: {}", o.err.unwrap_or_default()));
     } else if legacy == 0 && !was_paused && hub_query_fingerprint(&c.obs) != before {
